@@ -167,6 +167,10 @@ def run_layout(prop, tier, replay):
                        '(align 0x200000); each assembled with and without -c. non-trivial = distinct (set of line kinds, '
                        'size class, outcome pair).')
     rep.assumptions += ['chunks are observed by wrapping asm.resolve_blobs from outside; label offsets are recomputed from chunk lengths']
+    if prop == 'C03':
+        # an assembler nobody here wrote: LLVM 14 on the same programs (no -c, no relaxation): bytes and label addresses
+        from harness import llvmx
+        rep.count('programs_compared_with_llvm', llvmx.program_check(rep, prop, tier))
     rep.cov['model_vs_impl_disagreements'] = len(corr_diff)
     if not rep.violations and ob['failed']:
         rep.violation('proof obligation no longer checks: {} ({})'.format(ob['failed'][0][0], ob['failed'][0][1][:300]),
